@@ -16,15 +16,21 @@ RULE = ('(a) random element trees (depth <= 6, <= 40 elements, fixed element / a
         'SVGWriter with Element context managers or start/endElement, mixed content, comments, processing instructions, literal entity '
         'references, <br/> splitting, script sections and early exit (exception or elements left open); attribute values and text over '
         'markup characters, quotes, blanks/tab/newline/CR, DEL and C1, Latin-1, BMP (U+2028, U+FEFF, U+FFFD, U+D7FF, U+E000), astral, and - '
-        'in a separate class - C0 controls, NUL, U+FFFE/FFFF and lone surrogates.  A case is one tree (distinct by its operation log); '
+        'in a separate class - C0 controls, NUL, U+FFFE/FFFF and lone surrogates; one class draws from all 1.1 million XML characters, '
+        'and a few strings per thousand are 1000..6000 characters long.  Comments and processing instructions carry such strings too '
+        '(only well-formedness is asserted for them), xmlSpacePreserve, the writer opening a path itself, declared encodings other '
+        'than utf-8 and every SVG element class (polyline, polygon, group, text without position) are exercised.  '
+        'A case is one tree (distinct by its operation log); '
         'non-trivial = at least 3 elements and one string outside [A-Za-z0-9 ].  (b, c) one case per (source file, writer): RP66V1 files '
         'from the hostile-string generator (names, labels, units, long names, ASCII values with markup / control / 8-bit bytes) and the '
         'example files through IndexXML and ScanHTML; hostile LAS text, example LAS and byte-mutated copies through LASToHTML; example LIS '
-        'files and byte-mutated copies through LisToHtml; generated LIS plot files with hostile mnemonics through the SVG plotter; '
+        'files, byte-mutated copies and generated LIS files (independent encoder) with hostile bytes through LisToHtml; generated LIS '
+        'plot files with hostile mnemonics through the SVG plotter; every third source file has a name holding markup characters; '
         'non-trivial = the source holds at least one non-alphanumeric string.')
 ASSUMPTIONS = [
     'XML-representable = every character is an XML 1.0 Char (#x9 #xA #xD #x20-#xD7FF #xE000-#xFFFD #x10000-#x10FFFF)',
-    'element and attribute names are fixed identifiers, as in the real writers; comment / processing-instruction / script text is plain',
+    'element and attribute names and processing-instruction targets are fixed identifiers, as in the real writers; script text is plain; '
+    'comment and processing-instruction text is arbitrary but only has to leave the document well-formed',
     'whitespace-only text that the writer adds as indentation is ignored where the model has no text (never where the model has text)',
     'a writer that raises is recorded (class writer-raised:*), not judged: the property speaks about the documents that are written; '
     'whatever was written up to the exception must still be well-formed',
@@ -49,6 +55,7 @@ N_TREES = {'quick': 1000, 'thorough': 120000}
 N_RP66 = {'quick': 12, 'thorough': 1200}
 N_LAS = {'quick': 8, 'thorough': 800}
 N_LIS = {'quick': 3, 'thorough': 160}
+N_LIS_GEN = {'quick': 5, 'thorough': 300}
 N_SVG = {'quick': 2, 'thorough': 240}
 EPS = sys.float_info.epsilon
 XHTML_NS = 'http://www.w3.org/1999/xhtml'
@@ -60,7 +67,7 @@ def _h(b):
 
 
 def plan(tier, seed):
-    return [{'part': i, 'parts': NSHARDS, 'n_trees': N_TREES[tier], 'n_rp66': N_RP66[tier], 'n_las': N_LAS[tier], 'n_lis': N_LIS[tier],
+    return [{'part': i, 'parts': NSHARDS, 'n_trees': N_TREES[tier], 'n_rp66': N_RP66[tier], 'n_las': N_LAS[tier], 'n_lis': N_LIS[tier], 'n_lis_gen': N_LIS_GEN[tier],
              'n_svg': N_SVG[tier]} for i in range(NSHARDS)]
 
 
@@ -207,7 +214,12 @@ def drive_tree(rng, X, H, stream_kind, profile, log):
     info['style'] = style
 
     def S(maxlen=16):
-        if profile == 'any' and rng.random() < 0.35:
+        if profile != 'plain' and rng.random() < 0.004:
+            # a string longer than any buffer the writer (or a replacement of its character loop) might use
+            s = H.hostile_text(rng, 6000, rng.sample(H.REPRESENTABLE_CLASSES, rng.randrange(1, 4)) if profile != 'any' else
+                               rng.sample(H.REPRESENTABLE_CLASSES + H.UNREPRESENTABLE_CLASSES, rng.randrange(1, 4)), length=rng.choice([1000, 4097, 6000]))
+            info['long_string'] = True
+        elif profile == 'any' and rng.random() < 0.35:
             s = H.hostile_text(rng, maxlen, rng.sample(H.REPRESENTABLE_CLASSES + H.UNREPRESENTABLE_CLASSES, rng.randrange(1, 4)))
         elif profile == 'plain':
             s = H.hostile_text(rng, maxlen, ['plain'])
@@ -249,13 +261,19 @@ def drive_tree(rng, X, H, stream_kind, profile, log):
                         node.content.append(piece)
                         xs.characters(piece)
             elif k < 0.82:
-                t = ' plain comment %d ' % rng.randrange(100)
+                # comments carry file data too (the plot writer puts curve mnemonics into them): whatever the text, the document must
+                # stay well-formed; the comment text itself is not compared
+                t = ' plain comment %d ' % rng.randrange(100) if rng.random() < 0.5 else S(16)
                 log.append(('comment', t))
                 xs.comment(t)
             elif k < 0.86:
-                t = 'target data=%d' % rng.randrange(100)
+                t = 'target data=%d' % rng.randrange(100) if rng.random() < 0.5 else 'target ' + S(12)
                 log.append(('pI', t))
                 xs.pI(t)
+            elif k < 0.875:
+                # indentation suspended for this element and its descendants: nothing is added to the model
+                log.append(('xmlSpacePreserve',))
+                xs.xmlSpacePreserve()
             elif k < 0.93 and stream_kind == 'xhtml':
                 log.append(('literal', '&nbsp;'))
                 node.content.append('\xa0')
@@ -282,7 +300,7 @@ def drive_tree(rng, X, H, stream_kind, profile, log):
         use_with = style == 'with' or (style == 'mixed' and rng.random() < 0.6)
         if use_with:
             log.append(('with Element', name, dict(attrs)))
-            with X.Element(xs, name, attrs):
+            with (X.Element(xs, name) if (not attrs and rng.random() < 0.5) else X.Element(xs, name, attrs)):
                 body(xs, node, depth)
             log.append(('exit Element', name))
         elif style == 'mixed':
@@ -308,8 +326,16 @@ def drive_tree(rng, X, H, stream_kind, profile, log):
     root_holder = Node('#document', {})
     try:
         if stream_kind == 'xml':
-            with X.XmlStream(f) as xs:
-                element(xs, root_holder, 1)
+            enc = rng.choice(['utf-8'] * 8 + ['UTF-8', 'us-ascii', 'US-ASCII', 'ISO-8859-1', 'iso-8859-1'])
+            info['enc'] = enc
+            if rng.random() < 0.04:
+                # the writer opens (and closes) the file itself when it is given a path
+                info['path'] = _tmp('tree.xml')
+                with X.XmlStream(info['path'], theEnc=enc) as xs:
+                    element(xs, root_holder, 1)
+            else:
+                with (X.XmlStream(f) if enc == 'utf-8' and rng.random() < 0.5 else X.XmlStream(f, theEnc=enc, theId=rng.randrange(1000))) as xs:
+                    element(xs, root_holder, 1)
         elif stream_kind == 'xhtml':
             html = Node('html', None)
             root_holder.content.append(html)
@@ -340,7 +366,7 @@ def drive_tree(rng, X, H, stream_kind, profile, log):
                     def dim(v):
                         return '%.3fin' % v
                     for _ in range(rng.randrange(2, 6)):
-                        kind = rng.choice(['rect', 'circle', 'line', 'text', 'elipse'])
+                        kind = rng.choice(['rect', 'circle', 'line', 'text', 'elipse', 'polyline', 'polygon', 'g', 'text-nowhere'])
                         a, b, c, d = [round(rng.uniform(0, 3), 2) for _ in range(4)]
                         pt = Coord.Pt(Coord.Dim(a, 'in'), Coord.Dim(b, 'in'))
                         if kind == 'rect':
@@ -355,11 +381,22 @@ def drive_tree(rng, X, H, stream_kind, profile, log):
                         elif kind == 'line':
                             geo = {'x1': dim(a), 'y1': dim(b), 'x2': dim(c), 'y2': dim(d)}
                             el = SVGWriter.SVGLine(xs, pt, Coord.Pt(Coord.Dim(c, 'in'), Coord.Dim(d, 'in')), shared)
+                        elif kind in ('polyline', 'polygon'):
+                            pts = [(round(rng.uniform(-50, 900), 2), round(rng.uniform(-50, 900), 2)) for _ in range(rng.choice([0, 1, 2, 5, 40]))]
+                            geo = {'points': ' '.join('%.1f,%.1f' % (x, y) for x, y in pts)}
+                            cls = SVGWriter.SVGPolyline if kind == 'polyline' else SVGWriter.SVGPolygon
+                            el = cls(xs, [Coord.Pt(Coord.Dim(x, 'px'), Coord.Dim(y, 'px')) for x, y in pts], shared)
+                        elif kind == 'g':
+                            geo = {}
+                            el = SVGWriter.SVGGroup(xs, shared)
+                        elif kind == 'text-nowhere':
+                            geo = {'font-family': 'Courier', 'font-size': '7'}
+                            el = SVGWriter.SVGText(xs, None, 'Courier', 7, shared)
                         else:
                             geo = {'font-family': 'Courier', 'font-size': '7', 'x': dim(a), 'y': dim(b)}
                             el = SVGWriter.SVGText(xs, pt, 'Courier', 7, shared)
                         log.append(('SVG' + kind, sorted(geo)))
-                        svg.content.append(Node(kind, dict(geo, **before)))
+                        svg.content.append(Node('text' if kind == 'text-nowhere' else kind, dict(geo, **before)))
                         with el:
                             pass
                     if shared != before:
@@ -367,7 +404,12 @@ def drive_tree(rng, X, H, stream_kind, profile, log):
     except _Stop:
         info['early_exit'] = info['early_exit'] or 'exception'
     roots = [c for c in root_holder.content if isinstance(c, Node)]
-    return f.getvalue(), (roots[0] if roots else None), info
+    doc = f.getvalue()
+    if info.get('path'):
+        with open(info['path'], 'rb') as fh:
+            doc = fh.read().decode('utf-8', 'surrogateescape')
+        os.unlink(info['path'])
+    return doc, (roots[0] if roots else None), info
 
 
 def localname(tag):
@@ -459,6 +501,12 @@ def run_trees(ctx, n):
         classes.append('tree:style-' + info['style'])
         if info['early_exit']:
             classes.append('tree:early-exit-' + info['early_exit'])
+        if info.get('long_string'):
+            classes.append('tree:string>=1000-chars')
+        if info.get('path'):
+            classes.append('tree:writer-opens-path')
+        if info.get('enc', 'utf-8') != 'utf-8':
+            classes.append('tree:encoding-' + info['enc'].lower())
         for s in strings:
             for cname, chars in H.CLASSES.items():
                 if cname != 'plain' and any(c in chars for c in s):
@@ -502,6 +550,16 @@ def _tmp(name):
     d = os.environ.get('VERIF_SHARD_TMP') or '.'
     os.makedirs(d, exist_ok=True)
     return os.path.join(d, name)
+
+
+HOSTILE_FILE_NAMES = [" &<b>'q\"", ' a&amp;b', '--x--', ']]>', ' \xe9\u0394', '<!--', ' 100% {0}']
+
+
+def _file_name(stem, ext, k):
+    """Every third source file has a name with markup characters in it (legal on disk): the writers put the path into titles, attributes and links."""
+    if k % 3 == 1:
+        return stem + HOSTILE_FILE_NAMES[(k // 3) % len(HOSTILE_FILE_NAMES)] + ext
+    return stem + ext
 
 
 def check_document(rec, doc, monitor, what, cap, wit):
@@ -552,10 +610,11 @@ def rp66_documents(ctx, src, k, cap):
     from TotalDepth.RP66V1.core import LogicalFile
     from TotalDepth.common import Slice
     rec = ctx.rec
-    fp = _tmp('s%d.dlis' % k)
+    fp = _tmp(_file_name('s%d' % k, '.dlis', k))
     with open(fp, 'wb') as f:
         f.write(src.data)
     m = src.model
+    orng = ctx.sub_rng('rp66-options', k)
     wit = {'source': src.name, 'rp66v1': src.data if len(src.data) <= 4000 else src.data[:4000]}
     classes = ['rp66v1:' + c for c in src.classes]
     zero_frames = m is not None and any(len(ft.frames) == 0 for lf in m.logical_files for ft in lf.frame_types)
@@ -595,7 +654,8 @@ def rp66_documents(ctx, src, k, cap):
     out = io.StringIO()
     raised = None
     try:
-        ScanHTML.html_scan_RP66V1_file_data_content(fp, out, False, Slice.Slice(), False)
+        ScanHTML.html_scan_RP66V1_file_data_content(fp, out, False, orng.choice([Slice.Slice(), Slice.Slice(), Slice.Slice(None, None, 2), Slice.Slice(1, None, None), Slice.Sample(3)]),
+                                                    orng.random() < 0.4)
     except Exception as e:  # noqa
         raised = e
         rec.cls('writer-raised:ScanHTML:' + type(e).__name__)
@@ -724,7 +784,7 @@ def las_documents(ctx, name, text, k, cap, classes, hostile=True, encoding='utf-
     from TotalDepth.LAS import LASToHTML
     from TotalDepth.common import Slice
     rec = ctx.rec
-    fp = _tmp('l%d.las' % k)
+    fp = _tmp(_file_name('l%d' % k, '.las', k))
     data = text if isinstance(text, bytes) else text.encode(encoding, 'surrogatepass')
     with open(fp, 'wb') as f:
         f.write(data)
@@ -751,7 +811,7 @@ def lis_documents(ctx, name, data, k, cap, classes, hostile):
     import gc
     from TotalDepth.LIS import LisToHtml
     rec = ctx.rec
-    fp = _tmp('m%d.lis' % k)
+    fp = _tmp(_file_name('m%d' % k, '.lis', k))
     with open(fp, 'wb') as f:
         f.write(data)
     raised = None
@@ -903,6 +963,19 @@ def run_shard(ctx, p):
             mut, n = H.mutate_printable(rng, data, nmut=rng.choice([3, 10, 40]), alphabet=rng.choice([b'<>&"\'', b'<>&"\'\x01\x07\x7f', b'<&-->']),
                                         keep=(b'TYPE', b'MNEM', b'FILM', b'PRES', b'CONS'), runs=runs)
             lis_documents(ctx, 'mutated example_data/' + fn, mut, k, cap, ['lis:example-mutated', 'lis:mutations-%d' % n], hostile=True)
+    # ---- generated LIS files (independent encoder: tables, one or two logical files, every frame representation code, TIF or not)
+    # with hostile bytes written over their text: the example files above are three recordings of one well
+    from tdv.gen import lis as glis
+    for k in range(p.get('n_lis_gen', 0)):
+        rng = ctx.sub_rng('lis-gen', k)
+        data, fm = glis.random_file(rng, allow_be=False, two_files_p=0.3, concurrent_p=0.1)
+        mut, n = H.mutate_printable(rng, data, nmut=rng.choice([0, 3, 10, 40]), alphabet=rng.choice([b'<>&"\'', b'<>&"\'\x01\x07\x7f', b'<&-->', b'\xe9\xff<&']),
+                                    keep=(b'TYPE', b'MNEM', b'FILM', b'PRES', b'CONS'))
+        lis_documents(ctx, 'generated LIS (%s)' % fm.layout.describe(), mut, 100 + k, cap, ['lis:generated', 'lis:generated-mutations-%d' % n], hostile=n > 0)
+    # ---- a long RP66V1 log on a few shards (hundreds of frames per frame type: long run-length lists)
+    if part % 4 == 1:
+        rng = ctx.sub_rng('rp66-large', 0)
+        rp66_documents(ctx, representable_variant(H, rng, 0, size='large'), 950, cap)
     # ---- SVG
     for k in range(p['n_svg']):
         svg_documents(ctx, k, cap)
@@ -913,7 +986,7 @@ def run_shard(ctx, p):
         rec.violation('contract:' + name, 'breach', msg, {'contract': name, 'message': msg})
 
 
-def representable_variant(H, rng, which):
+def representable_variant(H, rng, which, size=None):
     """A hostile RP66V1 source restricted to bytes that XML can represent (markup, quotes, tab / newline / CR, DEL)."""
     saved = H.hostile_bytes
 
@@ -921,10 +994,10 @@ def representable_variant(H, rng, which):
         return saved(rng_, maxlen, seven_bit, minlen, classes=rng_.sample(['plain', 'markup', 'tabnl', 'del', 'markup'], rng_.randrange(1, 4)), tag=tag)
     H.hostile_bytes = only_representable
     try:
-        d, m = H.rp66_file(rng, ['small', 'medium', 'small'][which], hostile_names=(which != 2))
+        d, m = H.rp66_file(rng, size or ['small', 'medium', 'small'][which], hostile_names=(which != 2))
     finally:
         H.hostile_bytes = saved
-    return H.Source('rp66v1', 'hostile-representable', d, m, ['hostile-representable'] + sorted(m.labels))
+    return H.Source('rp66v1', 'hostile-representable', d, m, ['hostile-representable'] + (['long-log'] if size == 'large' else []) + sorted(m.labels))
 
 
 # ------------------------------------------------------------------------------------------------ known findings
